@@ -32,11 +32,13 @@ func init() {
 // elk.InitGlobalEnvironment() (a harness artefact, not a defect). The verif async hook counts tasks in flight
 // and RunElk waits (bounded, no verdict depends on it) until the pool is quiet.
 var poolBusy atomic.Int64
+var poolDequeues, poolDequeuesSeen atomic.Int64
 
 func baseAsyncHook(point string, _ *vm.Promise, _ *vm.Promise, _ *vm.Thread) {
 	switch point {
 	case "worker:dequeue":
 		poolBusy.Add(1)
+		poolDequeues.Add(1)
 	case "worker:done":
 		poolBusy.Add(-1)
 	}
@@ -44,8 +46,33 @@ func baseAsyncHook(point string, _ *vm.Promise, _ *vm.Promise, _ *vm.Thread) {
 
 func init() { vm.VerifAsyncHook = baseAsyncHook }
 
-func waitPoolQuiet() {
-	for i := 0; i < 60000 && poolBusy.Load() > 0; i++ { // up to a minute: on a loaded machine a runnable worker may not be scheduled for seconds
+func waitPoolQuiet(pools ...*vm.ThreadPool) {
+	// quiet = no task in flight and none still queued (a task that was started but never awaited may not even have been
+	// dequeued when the program returns), observed on three consecutive looks one millisecond apart
+	pools = append(pools, vm.DefaultThreadPool)
+	queued := false
+	for _, tp := range pools {
+		if tp != nil && len(tp.TaskQueue) > 0 {
+			queued = true
+		}
+	}
+	if !queued && poolBusy.Load() == 0 && poolDequeues.Load() == poolDequeuesSeen.Load() {
+		return // no pool task ran or was queued since the last look: nothing can straggle
+	}
+	defer func() { poolDequeuesSeen.Store(poolDequeues.Load()) }()
+	quiet := 0
+	for i := 0; i < 60000 && quiet < 3; i++ { // up to a minute: on a loaded machine a runnable worker may not be scheduled for seconds
+		busy := poolBusy.Load() > 0
+		for _, tp := range pools {
+			if tp != nil && len(tp.TaskQueue) > 0 {
+				busy = true
+			}
+		}
+		if busy {
+			quiet = 0
+		} else {
+			quiet++
+		}
 		time.Sleep(time.Millisecond)
 	}
 	if poolBusy.Load() != 0 {
@@ -151,7 +178,7 @@ func RunElk(source string, o *ElkOpts) (res *ElkResult) {
 	} else {
 		defer func() {
 			tp.Close()
-			waitPoolQuiet()
+			waitPoolQuiet(tp)
 		}()
 	}
 	v := vm.New(vm.WithStdout(stdout), vm.WithStderr(stderr), vm.WithThreadPool(tp), vm.WithAborter(aborter))
